@@ -195,6 +195,7 @@ type Exec struct {
 	unsatCache map[uint32]bool
 	faults   int
 	schedChoices int
+	idleTimers   int
 	harnessFn map[*ssa.Function]bool
 }
 
@@ -675,6 +676,9 @@ func (ex *Exec) run() {
 				return
 			}
 			ex.cur = th
+		}
+		if th.isMain {
+			ex.idleTimers = 0
 		}
 		ex.steps++
 		if ex.steps > ex.cfg.MaxSteps {
